@@ -157,6 +157,12 @@ WRAPPERS = {"Ref": "&'static §", "Box": "Box<§>", "Arc": "std::sync::Arc<§>",
 WRAPPERS3 = {"tokio::Mutex": "tokio::sync::Mutex<§>", "tokio::OnceCell": "tokio::sync::OnceCell<§>", "tokio::RwLock": "tokio::sync::RwLock<§>"}
 SHADOWS = [("HashSet", "HashSet<Inner>", "Vec<Inner>"), ("BTreeSet", "BTreeSet<UnitE>", "Vec<UnitE>"), ("slice", "[Inner]", "Vec<Inner>"),
            ("BTreeMap", "BTreeMap<String, Inner>", "HashMap<String, Inner>"), ("RangeInclusive", "std::ops::RangeInclusive<i32>", "std::ops::Range<i32>")]
+# NonZero*: serde writes them as the primitive, so they are bound like the primitive
+SHADOWS += [("NonZero" + t.capitalize(), "std::num::NonZero" + t.capitalize(), t) for t in
+            ["u8", "i8", "u16", "i16", "u32", "i32", "usize", "isize", "u64", "i64", "u128", "i128"]]
+# nested fixed-size arrays: each level is a tuple up to the limit on its own length
+SHADOWS += [("nested array 32x3", "[[u8; 32]; 3]", "([u8; 32], [u8; 32], [u8; 32])"), ("nested array 9x9", "[[f64; 9]; 2]", "([f64; 9], [f64; 9])"),
+            ("array of tuples", "[(f32, f32, f32); 24]", "[(f32, f32, f32); 24]"), ("nested array 65x2", "[[u8; 65]; 2]", "(Vec<u8>, Vec<u8>)")]
 SHADOWS3 = [("IndexSet", "indexmap::IndexSet<Inner>", "Vec<Inner>"), ("IndexMap", "indexmap::IndexMap<String, Inner>", "HashMap<String, Inner>"),
             ("heapless::Vec", "heapless::Vec<Inner, 4>", "Vec<Inner>"), ("Bytes", "bytes::Bytes", "Vec<u8>"), ("BytesMut", "bytes::BytesMut", "Vec<u8>"),
             ("serde_json::Map", "serde_json::Map<String, Inner>", "HashMap<String, Inner>")]
